@@ -18,6 +18,8 @@ import GeoProofs.Lemmas.C02QWinding
 import GeoProofs.Lemmas.C02QHoles
 import GeoProofs.Lemmas.C02QPerturb
 import GeoProofs.Lemmas.WINDHoles
+import GeoProofs.Lemmas.C02XTable
+import GeoProofs.Lemmas.C02XAreal
 
 namespace Geo.Proofs.C02
 open Geo
@@ -727,6 +729,430 @@ example : coordPos (.multiPolygon [⟨[⟨0, 0⟩, ⟨4, 0⟩, ⟨4, 4⟩, ⟨0,
     locate (.multiPolygon [⟨[⟨0, 0⟩, ⟨4, 0⟩, ⟨4, 4⟩, ⟨0, 4⟩, ⟨0, 0⟩], []⟩,
       ⟨[⟨4, 4⟩, ⟨8, 4⟩, ⟨8, 8⟩, ⟨4, 8⟩, ⟨4, 4⟩], []⟩]) ⟨4, 4⟩ :=
   coordPos_multiPolygon_eq_locate_valid_partial _ _ (by decide +kernel) (by decide +kernel)
+
+/-! ### C02X: valid MultiPolygon with no hypothesis left; bounding-box shortcut for every pair; the mask "not `FF*FF****`"
+as a point-set statement; the nine linear pairs; every geometry of the domain against a Point (see the table of the
+100 type pairs in GeoProofs/Lemmas/C02XTable.lean) -/
+
+/-- [T] beside every boundary point of an OGC-valid polygon that is not a ring coordinate, the left or the right face
+sample (the point perturbed by the symbolic infinitesimal across the edge) is interior to the polygon: winding number
+about the shell non-zero, about every hole zero. (Shell edge: the winding number jumps across the edge and no hole
+contains or touches the point, `IE = F` / `BE = F` / `BB ≤ 0` of `polyValid`; hole edge: one side of every edge of a
+simple ring is outside the ring.) -/
+theorem valid_polygon_side_inside (q : Poly) (hv : polyValid q = true) (r : List Pt) (hr : r ∈ q.rings)
+    (a b x : Pt) (hab : (a, b) ∈ segs r) (hx : Geo.Proofs.Kernel.SegMem x a b) (hnv : ∀ r' ∈ q.rings, x ∉ r') :
+    insidePolyE (Geo.Proofs.Spec.faceL a b x) q = true ∨ insidePolyE (Geo.Proofs.Spec.faceR a b x) q = true :=
+  Geo.Proofs.C02X.valid_side_inside hv hr hab hx hnv
+
+example : insidePolyE (Geo.Proofs.Spec.faceL ⟨2, 2⟩ ⟨4, 2⟩ ⟨3, 2⟩)
+      ⟨[⟨0, 0⟩, ⟨10, 0⟩, ⟨10, 10⟩, ⟨0, 10⟩, ⟨0, 0⟩], [[⟨2, 2⟩, ⟨4, 2⟩, ⟨4, 4⟩, ⟨2, 4⟩, ⟨2, 2⟩]]⟩ = true ∨
+    insidePolyE (Geo.Proofs.Spec.faceR ⟨2, 2⟩ ⟨4, 2⟩ ⟨3, 2⟩)
+      ⟨[⟨0, 0⟩, ⟨10, 0⟩, ⟨10, 10⟩, ⟨0, 10⟩, ⟨0, 0⟩], [[⟨2, 2⟩, ⟨4, 2⟩, ⟨4, 4⟩, ⟨2, 4⟩, ⟨2, 2⟩]]⟩ = true :=
+  valid_polygon_side_inside _ (by decide +kernel) [⟨2, 2⟩, ⟨4, 2⟩, ⟨4, 4⟩, ⟨2, 4⟩, ⟨2, 2⟩] (by simp [Poly.rings])
+    ⟨2, 2⟩ ⟨4, 2⟩ ⟨3, 2⟩ (by simp [segs]) ⟨1 / 2, by norm_num, by norm_num, by norm_num, by norm_num⟩
+    (by decide)
+
+/-- [T] two OGC-valid polygons whose DE-9IM matrix has `II = F`: no point is interior to the first and on the boundary
+of the second (a face atom beside the boundary point, or beside the midpoint of an adjacent elementary sub-segment of the
+arrangement, would be interior to both). -/
+theorem valid_polygons_apart (m m' : Poly) (hv : polyValid m = true) (hv' : polyValid m' = true)
+    (hii : (relateParts (partsOfPoly m) (partsOfPoly m')).ii = .empty) (p : Pt)
+    (hin : locate (.polygon m) p = .inside) : locate (.polygon m') p ≠ .onBoundary :=
+  Geo.Proofs.C02X.valid_polys_apart hv hv' hii p hin
+
+example : locate (.polygon ⟨[⟨4, 4⟩, ⟨8, 4⟩, ⟨8, 8⟩, ⟨4, 8⟩, ⟨4, 4⟩], []⟩) ⟨2, 2⟩ ≠ .onBoundary :=
+  valid_polygons_apart ⟨[⟨0, 0⟩, ⟨4, 0⟩, ⟨4, 4⟩, ⟨0, 4⟩, ⟨0, 0⟩], []⟩ ⟨[⟨4, 4⟩, ⟨8, 4⟩, ⟨8, 8⟩, ⟨4, 8⟩, ⟨4, 4⟩], []⟩
+    (by decide +kernel) (by decide +kernel) (by decide +kernel) ⟨2, 2⟩ (by decide +kernel)
+
+/-- [T] the member-against-member hypothesis of `coordPos_multiPolygon_eq_locate_valid_partial` from validity: in a valid
+MultiPolygon (`multiPolyValid`: valid members, `II = F` and `BB` of dimension ≤ 0 for every pair) no point is interior to
+one member and on the boundary of another. -/
+theorem multiPolygon_members_apart (ps : List Poly) (hv : multiPolyValid ps = true) (p : Pt) :
+    ∀ m ∈ ps, ∀ m' ∈ ps, locate (.polygon m) p = .inside → locate (.polygon m') p ≠ .onBoundary :=
+  Geo.Proofs.C02X.multiPolyValid_apart hv p
+
+example : locate (.polygon ⟨[⟨4, 4⟩, ⟨8, 4⟩, ⟨8, 8⟩, ⟨4, 8⟩, ⟨4, 4⟩], []⟩) ⟨1, 1⟩ ≠ .onBoundary :=
+  multiPolygon_members_apart [⟨[⟨0, 0⟩, ⟨4, 0⟩, ⟨4, 4⟩, ⟨0, 4⟩, ⟨0, 0⟩], []⟩, ⟨[⟨4, 4⟩, ⟨8, 4⟩, ⟨8, 8⟩, ⟨4, 8⟩, ⟨4, 4⟩], []⟩]
+    (by decide +kernel) ⟨1, 1⟩ ⟨[⟨0, 0⟩, ⟨4, 0⟩, ⟨4, 4⟩, ⟨0, 4⟩, ⟨0, 0⟩], []⟩ (by simp)
+    ⟨[⟨4, 4⟩, ⟨8, 4⟩, ⟨8, 8⟩, ⟨4, 8⟩, ⟨4, 4⟩], []⟩ (by simp) (by decide +kernel)
+
+/-- [T] **MultiPolygon, OGC-valid: `coordinate_position` is the specification's point location at every point** — no
+hypothesis left (members' positions by `coordPos_polygon_eq_locate_valid`, member against member by
+`multiPolygon_members_apart`). -/
+theorem coordPos_multiPolygon_eq_locate_valid (ps : List Poly) (p : Pt) (hv : multiPolyValid ps = true) :
+    coordPos (.multiPolygon ps) p = locate (.multiPolygon ps) p :=
+  Geo.Proofs.C02X.coordPos_multiPolygon_valid ps p hv
+
+example : coordPos (.multiPolygon [⟨[⟨0, 0⟩, ⟨4, 0⟩, ⟨4, 4⟩, ⟨0, 4⟩, ⟨0, 0⟩], [[⟨1, 1⟩, ⟨2, 1⟩, ⟨2, 2⟩, ⟨1, 1⟩]]⟩,
+      ⟨[⟨4, 4⟩, ⟨8, 4⟩, ⟨8, 8⟩, ⟨4, 8⟩, ⟨4, 4⟩], []⟩]) ⟨4, 4⟩ =
+    locate (.multiPolygon [⟨[⟨0, 0⟩, ⟨4, 0⟩, ⟨4, 4⟩, ⟨0, 4⟩, ⟨0, 0⟩], [[⟨1, 1⟩, ⟨2, 1⟩, ⟨2, 2⟩, ⟨1, 1⟩]]⟩,
+      ⟨[⟨4, 4⟩, ⟨8, 4⟩, ⟨8, 8⟩, ⟨4, 8⟩, ⟨4, 4⟩], []⟩]) ⟨4, 4⟩ :=
+  coordPos_multiPolygon_eq_locate_valid _ _ (by decide +kernel)
+
+/-- [T] **`has_disjoint_bboxes` is sound for every pair of geometries of the validity domain, point form**: disjoint
+bounding boxes ⇒ no point is located in the interior or on the boundary of both (`bounding_rect` only ranges over the
+exterior traversal — K6 of C19 —, but on the domain hole coordinates lie in the shell's box by `BE = F`, Rects have
+`min ≤ max` and all rings are closed). Covers every early return of the `Intersects` dispatch: LineString / MultiLineString /
+MultiPolygon / GeometryCollection × anything, the inner per-member tests, and `Polygon × Polygon` (hence the Rect and Triangle
+pairs that go through `to_polygon`). -/
+theorem disjointBB_sound_point (a b : Geom) (ha : inDomain a = true) (hb : inDomain b = true)
+    (h : disjointBB a b = true) (p : Pt) : locate a p = .outside ∨ locate b p = .outside :=
+  Geo.Proofs.C02X.disjointBB_no_common_point ha hb h p
+
+example : locate (.rect ⟨0, 0⟩ ⟨2, 2⟩) ⟨1, 1⟩ = .outside ∨
+    locate (.polygon ⟨[⟨3, 0⟩, ⟨5, 0⟩, ⟨5, 5⟩, ⟨3, 0⟩], []⟩) ⟨1, 1⟩ = .outside :=
+  disjointBB_sound_point _ _ (by decide +kernel) (by decide +kernel) (by decide +kernel) ⟨1, 1⟩
+
+/-- [T] … **matrix form**: the DE-9IM specification of a pair with disjoint bounding boxes has the shape `FF*FF****`, so
+`is_intersects` is `false` on it — the value the shortcut returns. -/
+theorem disjointBB_sound_spec (a b : Geom) (ha : inDomain a = true) (hb : inDomain b = true)
+    (h : disjointBB a b = true) : Gen.isIntersects (relateSpec a b) = false :=
+  Geo.Proofs.C02X.disjointBB_spec ha hb h
+
+example : Gen.isIntersects (relateSpec (.triangle ⟨0, 0⟩ ⟨2, 0⟩ ⟨0, 2⟩)
+    (.multiLineString [[⟨3, 0⟩, ⟨5, 0⟩], [⟨3, 1⟩, ⟨5, 5⟩]])) = false :=
+  disjointBB_sound_spec _ _ (by decide +kernel) (by decide +kernel) (by decide +kernel)
+
+/-- [T] **the mask "not `FF*FF****`" on the DE-9IM specification is "the operands have a common point"**, for all operands
+with closed rings (every geometry of the validity domain): (⇒) vertex and midpoint atoms are points, a face atom inside
+a polygon sits beside a point on or inside it; (⇐) a common point on the arrangement has an atom with the same locations
+(`Geo.Proofs.C02X.locate_const`: the location is constant on every elementary sub-segment), a common point off the arrangement is moved along a segment to the first ring it meets. -/
+theorem isIntersects_iff_common_point (a b : Geom) (ca : Geo.Proofs.C02X.ClosedRings (parts a))
+    (cb : Geo.Proofs.C02X.ClosedRings (parts b)) :
+    Gen.isIntersects (relateSpec a b) = true ↔ ∃ p, locate a p ≠ .outside ∧ locate b p ≠ .outside :=
+  Geo.Proofs.C02X.isIntersects_iff_common_point_closed ca cb
+
+example : Gen.isIntersects (relateSpec (.line ⟨1, 1⟩ ⟨1, 1⟩) (.lineString [⟨0, 0⟩, ⟨2, 2⟩, ⟨2, 0⟩, ⟨0, 2⟩])) = true :=
+  (isIntersects_iff_common_point _ _ (Geo.Proofs.C02X.closedRings_of_noAreas rfl)
+    (Geo.Proofs.C02X.closedRings_of_noAreas rfl)).mpr ⟨⟨1, 1⟩, by decide +kernel, by decide +kernel⟩
+
+/-- [T] … in particular on the validity domain. -/
+theorem isIntersects_iff_common_point_dom (a b : Geom) (ha : inDomain a = true) (hb : inDomain b = true) :
+    Gen.isIntersects (relateSpec a b) = true ↔ ∃ p, locate a p ≠ .outside ∧ locate b p ≠ .outside :=
+  Geo.Proofs.C02X.isIntersects_iff_common_point_closed (Geo.Proofs.C02X.dom_facts a ha).closed
+    (Geo.Proofs.C02X.dom_facts b hb).closed
+
+example : Gen.isIntersects (relateSpec (.rect ⟨0, 0⟩ ⟨4, 4⟩) (.polygon ⟨[⟨1, 1⟩, ⟨2, 1⟩, ⟨2, 2⟩, ⟨1, 1⟩], []⟩)) = true :=
+  (isIntersects_iff_common_point_dom _ _ (by decide +kernel) (by decide +kernel)).mpr
+    ⟨⟨7 / 4, 5 / 4⟩, by decide +kernel, by decide +kernel⟩
+
+/-- [T] `Line × Line`: `intersects` ⇔ the two segments share a point (degenerate lines included). -/
+theorem intersectsM_line_line_iff (a b c d : Pt) :
+    intersectsM (.line a b) (.line c d) = true ↔
+      ∃ p, Geo.Proofs.Kernel.SegMem p a b ∧ Geo.Proofs.Kernel.SegMem p c d := by
+  rw [Geo.Proofs.C02X.intersectsM_linear_iff _ _ rfl rfl]
+  unfold Geo.Proofs.C02X.SegsMeet
+  simp only [Geo.Proofs.C02X.curveSegs_line, List.mem_singleton, exists_eq_left]
+
+/-- [T] **the nine pairs of Line / LineString / MultiLineString, all inputs**: `intersects` holds exactly when a segment
+of the first operand and a segment of the second have a common point — every bounding-box early return on the way
+(outer, per member, `LineString × Line`) loses nothing. -/
+theorem intersectsM_linear_iff (a b : Geom) (ha : Geo.Proofs.C02X.isLinear a = true)
+    (hb : Geo.Proofs.C02X.isLinear b = true) :
+    intersectsM a b = true ↔
+      ∃ s ∈ (parts a).curveSegs, ∃ t ∈ (parts b).curveSegs, ∃ p,
+        Geo.Proofs.Kernel.SegMem p s.1 s.2 ∧ Geo.Proofs.Kernel.SegMem p t.1 t.2 :=
+  Geo.Proofs.C02X.intersectsM_linear_iff a b ha hb
+
+example : intersectsM (.lineString [⟨0, 0⟩, ⟨2, 2⟩, ⟨4, 0⟩]) (.multiLineString [[⟨5, 5⟩, ⟨6, 6⟩], [⟨3, 0⟩, ⟨3, 3⟩]]) = true :=
+  (intersectsM_linear_iff _ _ rfl rfl).mpr ⟨(⟨2, 2⟩, ⟨4, 0⟩), by simp [parts, Parts.curveSegs, segs],
+    (⟨3, 0⟩, ⟨3, 3⟩), by simp [parts, Parts.curveSegs, segs], ⟨3, 1⟩,
+    ⟨1 / 2, by norm_num, by norm_num, by norm_num, by norm_num⟩,
+    ⟨1 / 3, by norm_num, by norm_num, by norm_num, by norm_num⟩⟩
+
+/-- [T] … **and that is the mask "not `FF*FF****`" on the DE-9IM specification of the pair**, for all inputs (one-coordinate,
+closed and non-simple line strings, degenerate lines). -/
+theorem intersectsM_linear_eq_spec (a b : Geom) (ha : Geo.Proofs.C02X.isLinear a = true)
+    (hb : Geo.Proofs.C02X.isLinear b = true) : intersectsM a b = Gen.isIntersects (relateSpec a b) :=
+  Geo.Proofs.C02X.intersectsM_linear_eq_spec a b ha hb
+
+example : intersectsM (.line ⟨0, 0⟩ ⟨2, 2⟩) (.lineString [⟨0, 2⟩, ⟨2, 0⟩, ⟨5, 5⟩]) =
+    Gen.isIntersects (relateSpec (.line ⟨0, 0⟩ ⟨2, 2⟩) (.lineString [⟨0, 2⟩, ⟨2, 0⟩, ⟨5, 5⟩])) :=
+  intersectsM_linear_eq_spec _ _ rfl rfl
+
+/-- [T] `intersects` is symmetric on the nine linear pairs. -/
+theorem intersectsM_linear_symm (a b : Geom) (ha : Geo.Proofs.C02X.isLinear a = true)
+    (hb : Geo.Proofs.C02X.isLinear b = true) : intersectsM a b = intersectsM b a :=
+  Geo.Proofs.C02X.intersectsM_linear_symm a b ha hb
+
+example : intersectsM (.multiLineString [[⟨0, 0⟩, ⟨1, 1⟩]]) (.line ⟨0, 1⟩ ⟨1, 0⟩) =
+    intersectsM (.line ⟨0, 1⟩ ⟨1, 0⟩) (.multiLineString [[⟨0, 0⟩, ⟨1, 1⟩]]) :=
+  intersectsM_linear_symm _ _ rfl rfl
+
+/-- [T] every clause of `calculate_coordinate_position` (all ten types, nested collections) is additive in the
+accumulator: it ORs its own `is_inside` into the flag and adds its own boundary hits to the counter. -/
+theorem calcPos_additive (g : Geom) (p : Pt) (acc : PosAcc) :
+    calcPos g p acc = ⟨acc.inside || (calcPos g p ⟨false, 0⟩).inside, acc.bcount + (calcPos g p ⟨false, 0⟩).bcount⟩ :=
+  Geo.Proofs.C02X.calcPos_add g p acc
+
+/-- [T] members of a collection of the domain are disjoint as point sets: at every point at most one member is not
+`Outside` (from `II = IB = BI = BB = F` of `collectionOk` through `isIntersects_iff_common_point`). -/
+theorem collection_members_apart (gs : List Geom) (hd : inDomain (.collection gs) = true) (p : Pt) :
+    gs.Pairwise (fun g1 g2 => locate g1 p = .outside ∨ locate g2 p = .outside) :=
+  Geo.Proofs.C02X.collection_apart (Geo.Proofs.C02X.inDomain_collection hd).1
+    (Geo.Proofs.C02X.inDomain_collection hd).2 p
+
+example : [Geom.lineString [⟨0, 0⟩, ⟨4, 0⟩], .line ⟨0, 1⟩ ⟨4, 1⟩].Pairwise
+    (fun g1 g2 => locate g1 ⟨2, 0⟩ = .outside ∨ locate g2 ⟨2, 0⟩ = .outside) :=
+  collection_members_apart _ (by decide +kernel) _
+
+/-- [T] **`coordinate_position(g, p)` is the specification's point location for every geometry `g` of the validity domain**
+(`inDomain`: all ten types, collections — also nested — with pairwise disjoint members), at every point `p` that is an end
+point of at most one open member of each MultiLineString inside `g` (`noK9`). Full statement (no `noK9`): false — open
+known finding K9, witness `coordPos_mls_ne_locate_witness`. -/
+theorem coordPos_eq_locate_dom_partial (g : Geom) (p : Pt) (hd : inDomain g = true)
+    (hk : Geo.Proofs.C02X.noK9 p g = true) : coordPos g p = locate g p :=
+  Geo.Proofs.C02X.coordPos_dom g p hd hk
+
+example : coordPos (.collection [.polygon ⟨[⟨0, 0⟩, ⟨4, 0⟩, ⟨4, 4⟩, ⟨0, 4⟩, ⟨0, 0⟩], []⟩,
+      .collection [.rect ⟨6, 0⟩ ⟨8, 2⟩, .triangle ⟨6, 4⟩ ⟨8, 4⟩ ⟨6, 6⟩]]) ⟨8, 1⟩ =
+    locate (.collection [.polygon ⟨[⟨0, 0⟩, ⟨4, 0⟩, ⟨4, 4⟩, ⟨0, 4⟩, ⟨0, 0⟩], []⟩,
+      .collection [.rect ⟨6, 0⟩ ⟨8, 2⟩, .triangle ⟨6, 4⟩ ⟨8, 4⟩ ⟨6, 6⟩]]) ⟨8, 1⟩ :=
+  coordPos_eq_locate_dom_partial _ _ (by decide +kernel) (by decide +kernel)
+
+/-- [T] **`intersects(g, Point)` = "not `FF*FF****`" on the DE-9IM specification for every geometry `g` of the validity
+domain** (no K9 clause: the `Intersects` paths do not go through the boundary counter). -/
+theorem intersectsM_geom_point (g : Geom) (c : Pt) (hd : inDomain g = true) :
+    intersectsM g (.point c) = Gen.isIntersects (relateSpec g (.point c)) :=
+  Geo.Proofs.C02X.intersectsM_dom_point g c hd
+
+example : intersectsM (.multiPolygon [⟨[⟨0, 0⟩, ⟨4, 0⟩, ⟨4, 4⟩, ⟨0, 4⟩, ⟨0, 0⟩], []⟩,
+      ⟨[⟨4, 4⟩, ⟨8, 4⟩, ⟨8, 8⟩, ⟨4, 8⟩, ⟨4, 4⟩], []⟩]) (.point ⟨4, 4⟩) =
+    Gen.isIntersects (relateSpec (.multiPolygon [⟨[⟨0, 0⟩, ⟨4, 0⟩, ⟨4, 4⟩, ⟨0, 4⟩, ⟨0, 0⟩], []⟩,
+      ⟨[⟨4, 4⟩, ⟨8, 4⟩, ⟨8, 8⟩, ⟨4, 8⟩, ⟨4, 4⟩], []⟩]) (.point ⟨4, 4⟩)) :=
+  intersectsM_geom_point _ _ (by decide +kernel)
+
+/-- [T] `Point.intersects(g) = g.intersects(Point)` for every `g` (all inputs, collections included). -/
+theorem intersectsM_point_symm (g : Geom) (c : Pt) : intersectsM (.point c) g = intersectsM g (.point c) :=
+  Geo.Proofs.C02X.intersectsM_point_symm g c
+
+/-- [T] **`intersects(Point, g)` = its mask on the specification of `(Point, g)`**, every `g` of the domain. -/
+theorem intersectsM_point_geom (g : Geom) (c : Pt) (hd : inDomain g = true) :
+    intersectsM (.point c) g = Gen.isIntersects (relateSpec (.point c) g) := by
+  rw [intersectsM_point_symm, intersectsM_geom_point g c hd]
+  have : relateSpec g (.point c) = (relateSpec (.point c) g).transpose :=
+    Geo.Proofs.Spec.relateParts_transpose (parts (.point c)) (parts g)
+  rw [this, isIntersects_transpose]
+
+example : intersectsM (.point ⟨1, 1⟩) (.collection [.line ⟨0, 0⟩ ⟨2, 2⟩, .lineString [⟨0, 3⟩, ⟨3, 3⟩]]) =
+    Gen.isIntersects (relateSpec (.point ⟨1, 1⟩) (.collection [.line ⟨0, 0⟩ ⟨2, 2⟩, .lineString [⟨0, 3⟩, ⟨3, 3⟩]])) :=
+  intersectsM_point_geom _ _ (by decide +kernel)
+
+/-- [T] **`contains(g, Point)` = `T*****FF*` on the DE-9IM specification for every geometry `g` of the validity domain**
+(MultiPolygon: any member contains; collections: any member contains, members being disjoint). -/
+theorem containsM_geom_point (g : Geom) (c : Pt) (hd : inDomain g = true) :
+    containsM g (.point c) = Gen.isContains (relateSpec g (.point c)) :=
+  Geo.Proofs.C02X.containsM_dom_point g c hd
+
+example : containsM (.collection [.polygon ⟨[⟨0, 0⟩, ⟨4, 0⟩, ⟨4, 4⟩, ⟨0, 4⟩, ⟨0, 0⟩], []⟩, .rect ⟨6, 0⟩ ⟨8, 2⟩]) (.point ⟨7, 1⟩) =
+    Gen.isContains (relateSpec (.collection [.polygon ⟨[⟨0, 0⟩, ⟨4, 0⟩, ⟨4, 4⟩, ⟨0, 4⟩, ⟨0, 0⟩], []⟩, .rect ⟨6, 0⟩ ⟨8, 2⟩])
+      (.point ⟨7, 1⟩)) :=
+  containsM_geom_point _ _ (by decide +kernel)
+
+/-- [T] **`Point.is_within(g)` = `T*F**F***` on the specification of `(Point, g)`, every `g` of the domain.** -/
+theorem withinM_point_geom (g : Geom) (c : Pt) (hd : inDomain g = true) :
+    withinM (.point c) g = Gen.isWithin (relateSpec (.point c) g) :=
+  withinM_point_of_contains g c (containsM_geom_point g c hd)
+
+example : withinM (.point ⟨5, 5⟩) (.multiPolygon [⟨[⟨0, 0⟩, ⟨4, 0⟩, ⟨4, 4⟩, ⟨0, 4⟩, ⟨0, 0⟩], []⟩,
+      ⟨[⟨4, 4⟩, ⟨8, 4⟩, ⟨8, 8⟩, ⟨4, 8⟩, ⟨4, 4⟩], []⟩]) =
+    Gen.isWithin (relateSpec (.point ⟨5, 5⟩) (.multiPolygon [⟨[⟨0, 0⟩, ⟨4, 0⟩, ⟨4, 4⟩, ⟨0, 4⟩, ⟨0, 0⟩], []⟩,
+      ⟨[⟨4, 4⟩, ⟨8, 4⟩, ⟨8, 8⟩, ⟨4, 8⟩, ⟨4, 4⟩], []⟩])) :=
+  withinM_point_geom _ _ (by decide +kernel)
+
+/-! ### C02X (continued): the segment-against-area kernels as point-set statements; every pair with an operand without
+areal members; the shortcut of `Polygon × Polygon`; `contains` through `relate` -/
+
+/-- [T] `Polygon: Intersects<Line>` (ring tests, then `coordinate_position` of the two end points) for a polygon of the
+validity domain: true exactly when the segment has a point in the polygon (interior ∪ boundary) — if the segment misses
+every ring, the winding numbers are constant along it. -/
+theorem polyLine_iff_point_set (q : Poly) (hd : inDomain (.polygon q) = true) (x y : Pt) :
+    polyLine q x y = true ↔ ∃ p, Geo.Proofs.Kernel.SegMem p x y ∧ locate (.polygon q) p ≠ .outside :=
+  Geo.Proofs.C02X.polyLine_dom q hd x y
+
+example : polyLine ⟨[⟨0, 0⟩, ⟨10, 0⟩, ⟨10, 10⟩, ⟨0, 10⟩, ⟨0, 0⟩], [[⟨2, 2⟩, ⟨8, 2⟩, ⟨8, 8⟩, ⟨2, 8⟩, ⟨2, 2⟩]]⟩ ⟨3, 3⟩ ⟨1, 1⟩ = true :=
+  (polyLine_iff_point_set _ (by decide +kernel) _ _).mpr
+    ⟨⟨1, 1⟩, ⟨1, by norm_num, by norm_num, by norm_num, by norm_num⟩, by decide +kernel⟩
+
+/-- [T] `Rect: Intersects<Line>` (two corner tests, four side tests), Rect of positive width and height. -/
+theorem rectLine_iff_point_set (mn mx x y : Pt) (hx : mn.x < mx.x) (hy : mn.y < mx.y) :
+    rectLine mn mx x y = true ↔ ∃ p, Geo.Proofs.Kernel.SegMem p x y ∧ locate (.rect mn mx) p ≠ .outside :=
+  Geo.Proofs.C02X.rectLine_iff mn mx x y hx hy
+
+example : rectLine ⟨0, 0⟩ ⟨2, 2⟩ ⟨-1, 1⟩ ⟨3, 1⟩ = true :=
+  (rectLine_iff_point_set _ _ _ _ (by norm_num) (by norm_num)).mpr
+    ⟨⟨1, 1⟩, ⟨1 / 2, by norm_num, by norm_num, by norm_num, by norm_num⟩, by decide +kernel⟩
+
+/-- [T] `Triangle: Intersects<Line>` (through `to_polygon`), any triangle. -/
+theorem triLine_iff_point_set (a b c x y : Pt) :
+    polyLine (triPoly a b c) x y = true ↔
+      ∃ p, Geo.Proofs.Kernel.SegMem p x y ∧ locate (.triangle a b c) p ≠ .outside :=
+  Geo.Proofs.C02X.triLine_iff a b c x y
+
+/-- [T] `Rect: Intersects<Rect>`, both of positive width and height: not separated along an axis ⇔ a common point. -/
+theorem rectRect_iff_point_set (amn amx bmn bmx : Pt) (hax : amn.x < amx.x) (hay : amn.y < amx.y)
+    (hbx : bmn.x < bmx.x) (hby : bmn.y < bmx.y) :
+    rectRect amn amx bmn bmx = true ↔
+      ∃ p, locate (.rect amn amx) p ≠ .outside ∧ locate (.rect bmn bmx) p ≠ .outside :=
+  Geo.Proofs.C02X.rectRect_iff amn amx bmn bmx hax hay hbx hby
+
+example : rectRect ⟨0, 0⟩ ⟨2, 2⟩ ⟨2, 2⟩ ⟨3, 3⟩ = true :=
+  (rectRect_iff_point_set _ _ _ _ (by norm_num) (by norm_num) (by norm_num) (by norm_num)).mpr
+    ⟨⟨2, 2⟩, by decide +kernel, by decide +kernel⟩
+
+/-- [T] **`intersects(a, b)` ⇔ `a` and `b` have a common point, for every pair of geometries of the validity domain in
+which one operand has no areal member** (`thin`: Point, Line, LineString, MultiPoint, MultiLineString, collections of
+these; the other operand is arbitrary — Polygon with holes, MultiPolygon, Rect, Triangle, nested collections). Every impl on
+the path is covered: the blanket impls with their bounding-box early returns, the symmetric impls, the kernels.
+Full statement (no `thin` hypothesis, all pairs of the domain): open for the pairs of areal operands, which run the
+`Polygon × Polygon` body — see `intersectsM_areal_sound` and `intersectsM_polygon_polygon_partial`. -/
+theorem intersectsM_iff_common_partial (a b : Geom) (ha : inDomain a = true) (hb : inDomain b = true)
+    (ht : Geo.Proofs.C02X.thin a = true ∨ Geo.Proofs.C02X.thin b = true) :
+    intersectsM a b = true ↔ ∃ p, locate a p ≠ .outside ∧ locate b p ≠ .outside :=
+  Geo.Proofs.C02X.intersectsM_common a b ha hb ht
+
+example : intersectsM (.polygon ⟨[⟨0, 0⟩, ⟨4, 0⟩, ⟨4, 4⟩, ⟨0, 4⟩, ⟨0, 0⟩], []⟩) (.line ⟨1, 1⟩ ⟨2, 2⟩) = true :=
+  (intersectsM_iff_common_partial _ _ (by decide +kernel) (by decide +kernel) (Or.inr rfl)).mpr
+    ⟨⟨1, 1⟩, by decide +kernel, by decide +kernel⟩
+
+/-- [T] … **hence `intersects(a, b)` is the mask "not `FF*FF****`" on the DE-9IM specification of the pair** (76 of the
+100 ordered type pairs; see the table in GeoProofs/Lemmas/C02XTable.lean). Full statement (no `thin` hypothesis): as above. -/
+theorem intersectsM_eq_spec_partial (a b : Geom) (ha : inDomain a = true) (hb : inDomain b = true)
+    (ht : Geo.Proofs.C02X.thin a = true ∨ Geo.Proofs.C02X.thin b = true) :
+    intersectsM a b = Gen.isIntersects (relateSpec a b) :=
+  Geo.Proofs.C02X.intersectsM_thin_eq_spec a b ha hb ht
+
+example : intersectsM (.multiPolygon [⟨[⟨0, 0⟩, ⟨10, 0⟩, ⟨10, 10⟩, ⟨0, 10⟩, ⟨0, 0⟩], [[⟨2, 2⟩, ⟨8, 2⟩, ⟨8, 8⟩, ⟨2, 8⟩, ⟨2, 2⟩]]⟩])
+      (.multiLineString [[⟨3, 3⟩, ⟨7, 7⟩], [⟨12, 0⟩, ⟨12, 5⟩]]) =
+    Gen.isIntersects (relateSpec
+      (.multiPolygon [⟨[⟨0, 0⟩, ⟨10, 0⟩, ⟨10, 10⟩, ⟨0, 10⟩, ⟨0, 0⟩], [[⟨2, 2⟩, ⟨8, 2⟩, ⟨8, 8⟩, ⟨2, 8⟩, ⟨2, 2⟩]]⟩])
+      (.multiLineString [[⟨3, 3⟩, ⟨7, 7⟩], [⟨12, 0⟩, ⟨12, 5⟩]])) :=
+  intersectsM_eq_spec_partial _ _ (by decide +kernel) (by decide +kernel) (Or.inr rfl)
+
+example : intersectsM (.lineString [⟨-1, 1⟩, ⟨1, 1⟩, ⟨1, 5⟩]) (.collection [.rect ⟨0, 0⟩ ⟨2, 2⟩, .triangle ⟨4, 0⟩ ⟨6, 0⟩ ⟨4, 2⟩]) =
+    Gen.isIntersects (relateSpec (.lineString [⟨-1, 1⟩, ⟨1, 1⟩, ⟨1, 5⟩])
+      (.collection [.rect ⟨0, 0⟩ ⟨2, 2⟩, .triangle ⟨4, 0⟩ ⟨6, 0⟩ ⟨4, 2⟩])) :=
+  intersectsM_eq_spec_partial _ _ (by decide +kernel) (by decide +kernel) (Or.inl rfl)
+
+/-- [T] … and `intersects` is symmetric on these pairs. Full statement (all pairs): the areal pairs run the asymmetric
+`Polygon × Polygon` body ([C] only), cf. `intersectsM_symm_partial`. -/
+theorem intersectsM_symm_thin_partial (a b : Geom) (ha : inDomain a = true) (hb : inDomain b = true)
+    (ht : Geo.Proofs.C02X.thin a = true ∨ Geo.Proofs.C02X.thin b = true) :
+    intersectsM a b = intersectsM b a :=
+  Geo.Proofs.C02X.intersectsM_thin_symm a b ha hb ht
+
+example : intersectsM (.triangle ⟨0, 0⟩ ⟨4, 0⟩ ⟨0, 4⟩) (.multiPoint [⟨1, 1⟩, ⟨9, 9⟩]) =
+    intersectsM (.multiPoint [⟨1, 1⟩, ⟨9, 9⟩]) (.triangle ⟨0, 0⟩ ⟨4, 0⟩ ⟨0, 4⟩) :=
+  intersectsM_symm_thin_partial _ _ (by decide +kernel) (by decide +kernel) (Or.inr rfl)
+
+/-- [T] Rect × Rect, both of positive width and height: the mask on the specification. -/
+theorem intersectsM_rect_rect_eq_spec (amn amx bmn bmx : Pt) (ha : inDomain (.rect amn amx) = true)
+    (hb : inDomain (.rect bmn bmx) = true) :
+    intersectsM (.rect amn amx) (.rect bmn bmx) = Gen.isIntersects (relateSpec (.rect amn amx) (.rect bmn bmx)) :=
+  Geo.Proofs.C02X.intersectsM_rect_rect_eq_spec amn amx bmn bmx ha hb
+
+example : intersectsM (.rect ⟨0, 0⟩ ⟨2, 2⟩) (.rect ⟨2, 1⟩ ⟨3, 3⟩) =
+    Gen.isIntersects (relateSpec (.rect ⟨0, 0⟩ ⟨2, 2⟩) (.rect ⟨2, 1⟩ ⟨3, 3⟩)) :=
+  intersectsM_rect_rect_eq_spec _ _ _ _ (by decide +kernel) (by decide +kernel)
+
+/-- [T] the fifteen remaining `intersects` cells — the pairs of areal types other than Rect × Rect — all run the
+`Polygon × Polygon` body, through `to_polygon` for Rect and Triangle ([C] only beyond the shortcut below). -/
+theorem intersectsM_areal_dispatch (p q : Poly) (mn mx t0 t1 t2 u0 u1 u2 : Pt) :
+    intersectsM (.polygon p) (.polygon q) = polyPoly q p ∧
+    intersectsM (.polygon p) (.rect mn mx) = polyPoly p (rectPoly mn mx) ∧
+    intersectsM (.polygon p) (.triangle t0 t1 t2) = polyPoly p (triPoly t0 t1 t2) ∧
+    intersectsM (.rect mn mx) (.polygon p) = polyPoly p (rectPoly mn mx) ∧
+    intersectsM (.rect mn mx) (.triangle t0 t1 t2) = polyPoly (triPoly t0 t1 t2) (rectPoly mn mx) ∧
+    intersectsM (.triangle t0 t1 t2) (.polygon p) = polyPoly p (triPoly t0 t1 t2) ∧
+    intersectsM (.triangle t0 t1 t2) (.rect mn mx) = polyPoly (triPoly t0 t1 t2) (rectPoly mn mx) ∧
+    intersectsM (.triangle t0 t1 t2) (.triangle u0 u1 u2) = polyPoly (triPoly u0 u1 u2) (triPoly t0 t1 t2) := by
+  obtain ⟨h1, h2, h3, h4, h5, _, h7, h8, h9⟩ := Geo.Proofs.C02X.dispatch_areal p q mn mx mn mx t0 t1 t2 u0 u1 u2
+  exact ⟨h1, h2, h3, h4, h5, h7, h8, h9⟩
+
+/-- [T] **the early return of `Polygon: Intersects<Polygon>` loses nothing**, also through `to_polygon`: when the
+bounding boxes are disjoint `polyPoly` is `false` and the two polygons have no common point. Operands: any two of
+{polygon of the domain, `Rect::to_polygon`, `Triangle::to_polygon`} (`DomFacts`: Rects valid, hole coordinates inside the
+shell's box, rings closed). -/
+theorem polyPoly_shortcut_sound (p q : Poly) (fp : Geo.Proofs.C02X.DomFacts (.polygon p))
+    (fq : Geo.Proofs.C02X.DomFacts (.polygon q)) (h : disjointBB (.polygon p) (.polygon q) = true) :
+    polyPoly p q = false ∧ ∀ x, locate (.polygon p) x = .outside ∨ locate (.polygon q) x = .outside :=
+  Geo.Proofs.C02X.polyPoly_shortcut p q fp fq h
+
+example : polyPoly (triPoly ⟨0, 0⟩ ⟨2, 0⟩ ⟨0, 2⟩) (rectPoly ⟨3, 3⟩ ⟨5, 5⟩) = false :=
+  (polyPoly_shortcut_sound _ _ (Geo.Proofs.C02X.domFacts_triPoly _ _ _) (Geo.Proofs.C02X.domFacts_rectPoly _ _)
+    (by decide +kernel)).1
+
+/-- [T] the 66 pairs whose `Contains` impl is `impl_contains_from_relate!` (`Geo.Proofs.C02X.viaRelate`): the mask
+`T*****FF*` on the matrix, by definition (that `relate` computes the specification's matrix is C01). -/
+theorem containsM_via_relate (a b : Geom) (h : Geo.Proofs.C02X.viaRelate a b = true) :
+    containsM a b = Gen.isContains (relateSpec a b) :=
+  Geo.Proofs.C02X.containsM_via_relate a b h
+
+example : containsM (.polygon ⟨[⟨0, 0⟩, ⟨4, 0⟩, ⟨4, 4⟩, ⟨0, 4⟩, ⟨0, 0⟩], []⟩) (.lineString [⟨1, 1⟩, ⟨2, 2⟩]) =
+    Gen.isContains (relateSpec (.polygon ⟨[⟨0, 0⟩, ⟨4, 0⟩, ⟨4, 4⟩, ⟨0, 4⟩, ⟨0, 0⟩], []⟩) (.lineString [⟨1, 1⟩, ⟨2, 2⟩])) :=
+  containsM_via_relate _ _ rfl
+
+/-- [T] `MultiPolygon: Contains<X>` for linear / areal `X` (`rhs.relate(self).is_within()`): the mask `T*****FF*` on the
+matrix of `(self, rhs)`. -/
+theorem containsM_multiPolygon_via_relate (ps : List Poly) (b : Geom)
+    (hb : match b with | .point _ | .multiPoint _ => false | _ => true) :
+    containsM (.multiPolygon ps) b = Gen.isContains (relateSpec (.multiPolygon ps) b) :=
+  Geo.Proofs.C02X.containsM_multiPolygon_via_relate ps b hb
+
+example : containsM (.multiPolygon [⟨[⟨0, 0⟩, ⟨4, 0⟩, ⟨4, 4⟩, ⟨0, 4⟩, ⟨0, 0⟩], []⟩]) (.line ⟨1, 1⟩ ⟨2, 2⟩) =
+    Gen.isContains (relateSpec (.multiPolygon [⟨[⟨0, 0⟩, ⟨4, 0⟩, ⟨4, 4⟩, ⟨0, 4⟩, ⟨0, 0⟩], []⟩]) (.line ⟨1, 1⟩ ⟨2, 2⟩)) :=
+  containsM_multiPolygon_via_relate _ _ rfl
+
+/-- [T] **what `Polygon: Intersects<Polygon>` computes, exactly** (bounding-box early returns of the body and of its
+`LineString × Polygon` calls included): some ring point of `q` lies in `p`, or some shell point of `p` lies in `q`.
+Operands: polygons of the domain, or `to_polygon` of a Rect / Triangle (`PieceFacts`, see `pieceFacts_polygon`,
+`pieceFacts_rectPoly`, `pieceFacts_triPoly`). -/
+theorem polyPoly_iff_boundary (p q : Poly) (pfp : Geo.Proofs.C02X.PieceFacts (.polygon p))
+    (pfq : Geo.Proofs.C02X.PieceFacts (.polygon q)) :
+    polyPoly p q = true ↔
+      (∃ r ∈ q.rings, ∃ s ∈ segs r, ∃ x, Geo.Proofs.Kernel.SegMem x s.1 s.2 ∧ locate (.polygon p) x ≠ .outside) ∨
+      (∃ s ∈ segs p.ext, ∃ x, Geo.Proofs.Kernel.SegMem x s.1 s.2 ∧ locate (.polygon q) x ≠ .outside) :=
+  Geo.Proofs.C02X.polyPoly_iff p q pfp pfq
+
+example : polyPoly (rectPoly ⟨0, 0⟩ ⟨4, 4⟩) (triPoly ⟨1, 1⟩ ⟨2, 1⟩ ⟨1, 2⟩) = true :=
+  (polyPoly_iff_boundary _ _ (Geo.Proofs.C02X.pieceFacts_rectPoly _ _) (Geo.Proofs.C02X.pieceFacts_triPoly _ _ _)).mpr
+    (Or.inl ⟨[⟨1, 1⟩, ⟨2, 1⟩, ⟨1, 2⟩, ⟨1, 1⟩], by simp [triPoly, Poly.rings], (⟨1, 1⟩, ⟨2, 1⟩), by simp [segs],
+      ⟨1, 1⟩, ⟨0, by norm_num, by norm_num, by norm_num, by norm_num⟩, by decide +kernel⟩)
+
+/-- [T] **no false positive on the nine pairs of Polygon / Rect / Triangle**: `intersects(a, b) = true` implies the mask
+"not `FF*FF****`" on the specification (every point the `Polygon × Polygon` body finds is a common point). -/
+theorem intersectsM_areal_sound (a b : Geom) (ha : inDomain a = true) (hb : inDomain b = true)
+    (pa : Geo.Proofs.C02X.arealPrim a = true) (pb : Geo.Proofs.C02X.arealPrim b = true)
+    (h : intersectsM a b = true) : Gen.isIntersects (relateSpec a b) = true :=
+  Geo.Proofs.C02X.intersectsM_arealPrim_sound a b ha hb pa pb h
+
+example : Gen.isIntersects (relateSpec (.triangle ⟨0, 0⟩ ⟨4, 0⟩ ⟨0, 4⟩) (.rect ⟨1, 1⟩ ⟨5, 5⟩)) = true :=
+  intersectsM_areal_sound _ _ (by decide +kernel) (by decide +kernel) rfl rfl (by decide +kernel)
+
+/-- [T] Polygon × Polygon, both of the domain: `intersects` is the mask on the specification, given the one step that is
+not proved here. Full statement (no `hgap`): needs "two valid polygons with a common point have a ring point of one in the
+other or a shell point of the other in the first" — if the boundaries do not meet, one polygon lies inside the other
+(connectedness of a valid polygon). [C] decides these pairs meanwhile. -/
+theorem intersectsM_polygon_polygon_partial (p q : Poly) (hp : inDomain (.polygon p) = true)
+    (hq : inDomain (.polygon q) = true)
+    (hgap : (∃ x, locate (.polygon q) x ≠ .outside ∧ locate (.polygon p) x ≠ .outside) →
+      Geo.Proofs.C02X.BoundaryMeets q p) :
+    intersectsM (.polygon p) (.polygon q) = Gen.isIntersects (relateSpec (.polygon p) (.polygon q)) := by
+  have e : intersectsM (.polygon p) (.polygon q) = polyPoly q p := by
+    simp only [intersectsM, vsPiece, isxFlat, polyX]
+  rw [e, Bool.eq_iff_iff, Geo.Proofs.C02X.polyPoly_common_partial q p (Geo.Proofs.C02X.pieceFacts_polygon q hq)
+    (Geo.Proofs.C02X.pieceFacts_polygon p hp) hgap]
+  have hs := isIntersects_iff_common_point_dom (.polygon p) (.polygon q) hp hq
+  rw [hs]
+  exact ⟨Geo.Proofs.C02X.Common.symm, Geo.Proofs.C02X.Common.symm⟩
+
+example : intersectsM (.polygon ⟨[⟨0, 0⟩, ⟨4, 0⟩, ⟨4, 4⟩, ⟨0, 4⟩, ⟨0, 0⟩], []⟩)
+      (.polygon ⟨[⟨2, 2⟩, ⟨6, 2⟩, ⟨6, 6⟩, ⟨2, 2⟩], []⟩) =
+    Gen.isIntersects (relateSpec (.polygon ⟨[⟨0, 0⟩, ⟨4, 0⟩, ⟨4, 4⟩, ⟨0, 4⟩, ⟨0, 0⟩], []⟩)
+      (.polygon ⟨[⟨2, 2⟩, ⟨6, 2⟩, ⟨6, 6⟩, ⟨2, 2⟩], []⟩)) :=
+  intersectsM_polygon_polygon_partial _ _ (by decide +kernel) (by decide +kernel)
+    (fun _ => Or.inl ⟨[⟨0, 0⟩, ⟨4, 0⟩, ⟨4, 4⟩, ⟨0, 4⟩, ⟨0, 0⟩], by simp [Poly.rings], (⟨4, 0⟩, ⟨4, 4⟩), by simp [segs],
+      ⟨4, 2⟩, ⟨1 / 2, by norm_num, by norm_num, by norm_num, by norm_num⟩, by decide +kernel⟩)
 
 /-! ### TRAN: the `CoordinatePosition` accumulator, clause by clause, is the term read off the Rust bodies -/
 
